@@ -3,7 +3,7 @@ import json
 import random
 from multiprocessing import Pool
 
-from . import groupfam, tlc
+from . import groupfam, groupfull, tlc
 from .check_conn import judge
 from .report import run_check
 
@@ -33,6 +33,8 @@ def _exec(args):
     kind, cfg, payload = args
     if kind == "events":
         return groupfam.execute(cfg, payload)
+    if kind == "full":
+        return groupfull.random_run(payload[0], payload[1])
     if kind == "events-lenient":
         # the last event is an optional continuation: dropped when the implementation does not offer it
         t = groupfam.execute(cfg, payload)
@@ -100,6 +102,37 @@ def run_group(chk, prop, tier, seed):
         judge(chk, prop, "group[%s]" % cfg["name"], traces, results, lambda t: t["steps"], gsig, sources)
 
 
+def fsig(steps, line):
+    return ">".join((r["e"]["a"] + (":" + r["e"]["k"] if r["e"]["k"] else "")) for r in steps[max(0, line - 3):line])
+
+
+def run_groupfull(chk, prop, tier, seed):
+    """two real group members (real clients, real consumers) on the simulated cluster and coordinator; every recorded
+    snapshot is judged by TLC against GroupFence.tla"""
+    thorough = tier == "thorough"
+    wd = tlc.workdir("%s-%s-groupfull" % (prop, tier))
+    n = 3000 if thorough else 300
+    jobs = [("full", None, (seed * 9973 + k, 160)) for k in range(n)]
+    sources = ["full-stack group random seed=%d" % j[2][0] for j in jobs]
+    with Pool(14) as pool:
+        traces = pool.map(_exec, jobs, chunksize=5)
+    results, _ = tlc.validate_traces(wd, "GroupFence", traces, [], ["SPECIFICATION TSpec", "CONSTRAINT Report", "CHECK_DEADLOCK FALSE"],
+                                     timeout=2400, chunk=400)
+    chk.add_traces(len(traces), sum(len(t["steps"]) for t in traces))
+    stats = {"stable_snapshots": 0, "two_member_generations": 0, "consumers_running_snapshots": 0, "evictions": 0, "stops": 0}
+    for t in traces:
+        for st in t["steps"]:
+            c = st["coord"]
+            stats["stable_snapshots"] += c["state"] == "Stable"
+            stats["two_member_generations"] += c["state"] == "Stable" and len(c["members"]) == 2
+            stats["consumers_running_snapshots"] += any(st["members"][m]["consumers"] for m in ("A", "B"))
+            stats["evictions"] += st["e"]["a"] == "Evict"
+            stats["stops"] += st["e"]["a"] == "Stop"
+    chk.extra["full_stack_group"] = stats
+    chk.sample({"family": "group-full", "source": sources[-1], "trace": traces[-1]["steps"][:3]})
+    judge(chk, prop, "group-full", traces, results, lambda t: t["steps"], fsig, sources)
+
+
 def main(prop, tier, seed, replay_file):
     if replay_file:
         with open(replay_file) as f:
@@ -107,6 +140,12 @@ def main(prop, tier, seed, replay_file):
         if rp["family"] == "parts":
             from . import check_calls
             check_calls.replay(rp)
+        if rp["family"] == "group-full":
+            tr = groupfull.random_run(rp["trace"]["seed"], rp["trace"]["length"])
+            wd = tlc.workdir("replay-%s" % prop)
+            results, _ = tlc.validate_traces(wd, "GroupFence", [tr], [], ["SPECIFICATION TSpec", "CONSTRAINT Report", "CHECK_DEADLOCK FALSE"], workers=1)
+            print(json.dumps({"result": results[0], "steps": len(tr["steps"])}, indent=1))
+            raise SystemExit(1 if [c for c, _ in results[0]["viol"] if c.startswith(prop + ".")] else 0)
         name = rp["family"][len("group["):-1]
         cfg = [c for c in groupfam.CONFIGS if c["name"] == name][0]
         tr = groupfam.execute(cfg, [r.get("was", r["e"]) for r in rp["trace"]["steps"]])
@@ -124,6 +163,9 @@ def main(prop, tier, seed, replay_file):
             "a member is not restarted after stop (the coordinator object drops its protocol on stop)",
         ]
         run_group(chk, prop, tier, seed)
+        chk.assumptions.append("full-stack group runs: the simulated coordinator holds joins until the scheduler completes the "
+                               "rebalance and forms the generation from those who joined; members are evicted only by the scheduler")
+        run_groupfull(chk, prop, tier, seed)
         if prop == "C17":
             from . import check_calls
             check_calls.parts_lookup(chk, tier, seed)
